@@ -5641,3 +5641,161 @@ func checkMemoInvalidated(p *Program, r *Report, rule string) {
 	}
 	_ = n
 }
+
+// ---------------------------------------------------------------------------
+// R08h SLOT-CACHE-NOT-PERMUTED. A slice that is filled slot by slot from
+// another list (cache[i] = f(list[i]) over the index of list) is only valid
+// while the list keeps its order. If the list - or the struct that holds it -
+// is sorted, or handed by address to a method that may insert or delete,
+// after the fill and before a later read of the cache, the cache describes
+// other slots than the ones it is read for.
+
+func checkSlotCacheNotPermuted(p *Program, r *Report, rule string, entries []string) {
+	var es []*ssa.Function
+	for _, e := range entries {
+		if f := p.Func(e); f != nil {
+			es = append(es, f)
+		} else {
+			r.MissingAnchor(rule, e, e+" not found")
+		}
+	}
+	reach := p.StaticReach(es...)
+	for _, e := range es {
+		reach[e] = true
+	}
+	// holder of a list value: the local struct variable whose field it is loaded from, or the value itself
+	holder := func(v ssa.Value) ssa.Value {
+		if u, ok := v.(*ssa.UnOp); ok && u.Op == token.MUL {
+			if fa, ok := u.X.(*ssa.FieldAddr); ok {
+				if al, ok := fa.X.(*ssa.Alloc); ok {
+					return al
+				}
+			}
+			if al, ok := u.X.(*ssa.Alloc); ok {
+				return al
+			}
+		}
+		return v
+	}
+	n := 0
+	for _, fn := range sortedFuncs(p, reach) {
+		if fn.Blocks == nil {
+			continue
+		}
+		idx := 0
+		for _, b := range fn.Blocks {
+			for _, in := range b.Instrs {
+				st, ok := in.(*ssa.Store)
+				if !ok {
+					continue
+				}
+				ia, ok := st.Addr.(*ssa.IndexAddr)
+				if !ok || !isSliceT(ia.X.Type()) {
+					continue
+				}
+				if _, isConst := ia.Index.(*ssa.Const); isConst {
+					continue
+				}
+				cache := ia.X
+				if _, fresh := cache.(*ssa.MakeSlice); !fresh {
+					continue
+				}
+				// the same index reads another list in the same function
+				var list ssa.Value
+				for _, ref := range *ia.Index.Referrers() {
+					y, ok := ref.(*ssa.IndexAddr)
+					if !ok || y == ia || y.X == cache || !isSliceT(y.X.Type()) {
+						continue
+					}
+					if flowsFrom(st.Val, func(v ssa.Value) bool {
+						u, ok := v.(*ssa.UnOp)
+						return ok && u.X == ssa.Value(y)
+					}, 0, map[ssa.Value]bool{}) {
+						list = y.X
+					}
+				}
+				if list == nil {
+					continue
+				}
+				idx++
+				n++
+				key := fmt.Sprintf("%s/slot-cache#%d", p.FuncName(fn), idx)
+				hl := holder(list)
+				after := reachableBlocks(b.Succs)
+				// permutations of the list (or its holder) that can run after the fill
+				var perm ssa.Instruction
+				for _, pb := range fn.Blocks {
+					if !after[pb] {
+						continue
+					}
+					for _, pin := range pb.Instrs {
+						c, ok := pin.(*ssa.Call)
+						if !ok {
+							continue
+						}
+						cc := c.Common()
+						touches := false
+						for _, a := range cc.Args {
+							x := a
+							if mi, ok := x.(*ssa.MakeInterface); ok {
+								x = mi.X
+							}
+							if x == hl || holder(x) == hl || x == list {
+								touches = true
+							}
+						}
+						if !touches {
+							continue
+						}
+						f := calleeFunc(cc)
+						name := ""
+						if f != nil {
+							name = f.Name()
+							if f.Pkg() != nil {
+								name = f.Pkg().Name() + "." + name
+							}
+						}
+						switch {
+						case strings.HasPrefix(name, "sort.") || strings.HasPrefix(name, "slices.Sort") || strings.HasPrefix(name, "slices.Reverse"):
+							perm = c
+						default:
+							// a method of the package handed the address of the holder: may insert / delete
+							if sc := cc.StaticCallee(); sc != nil && p.owns(sc) && sc.Signature.Recv() != nil {
+								if _, isPtr := sc.Signature.Recv().Type().(*types.Pointer); isPtr && len(cc.Args) > 0 && cc.Args[0] == hl {
+									perm = c
+								}
+							}
+						}
+					}
+				}
+				if perm == nil {
+					r.Discharge(rule, key, posOf(p, st), "nothing reorders the list the cache was filled from after the fill", true)
+					continue
+				}
+				// a read of the cache that can follow the permutation
+				afterPerm := reachableBlocks(perm.Block().Succs)
+				afterPerm[perm.Block()] = true
+				var read ssa.Instruction
+				for _, ref := range *cache.Referrers() {
+					y, ok := ref.(*ssa.IndexAddr)
+					if !ok || y == ia {
+						continue
+					}
+					for _, r2 := range *y.Referrers() {
+						if u, ok := r2.(*ssa.UnOp); ok && u.Op == token.MUL && afterPerm[u.Block()] {
+							read = u
+						}
+					}
+				}
+				if read == nil {
+					r.Discharge(rule, key, posOf(p, st), "the cache is not read after the list it was filled from is reordered", true)
+				} else {
+					r.Violate(rule, key, posOf(p, perm), fmt.Sprintf("the per-slot cache filled at %s from another list is read again (%s) after that list is reordered here: the slots have shifted, and the cached values belong to other elements", posOf(p, st), posOf(p, read)), "in "+p.FuncName(fn))
+				}
+			}
+		}
+	}
+	if n == 0 {
+		r.Discharge(rule, "closure/no-slot-cache", "-", "no slice in the closure is filled slot by slot from another list", false)
+	}
+}
